@@ -31,7 +31,8 @@ def tok (bn : Nat) (w : W) (t : String) : Option W :=
   | ["v", rid, x] =>
     match rid.toNat?, x.toNat? with
     | some rid, some x =>
-      if rid = net then
+      if rid = net ∧ x = w.lcount then some w     -- the same exit root verified again: `processVerifyBatches` records nothing
+      else if rid = net then
         let w := { w with lcount := x, rer := w.rer.set (rid - 1) (x + 1) }
         let (w, k) := rerIdOf w
         some { w with vs := w.vs ++ [{ block := bn, lcount := x, rerId := k }] }
@@ -47,6 +48,13 @@ def step (w : W) (ws : List String) : W × String :=
   match ws with
   | ["new"] => ({}, "ok")
   | "l1blk" :: bn :: toks =>
+    match bn.toNat? with
+    | some bn => match toks.foldlM (tok bn) w with
+      | some w => (w, "ok")
+      | none => (w, "bad-op")
+    | none => (w, "bad-op")
+  -- the first attempt at the block fails at the last bridge row and is rolled back; the retry is the block
+  | "l1blk!" :: bn :: toks =>
     match bn.toNat? with
     | some bn => match toks.foldlM (tok bn) w with
       | some w => (w, "ok")
